@@ -69,7 +69,7 @@ def main():
             sh(f"git -C /repo worktree add {target} HEAD")
             rc, out = sh(f"git apply {patch}", cwd=target)
             assert rc == 0, out
-            env = dict(os.environ, VERIF_REPO=target)
+            env = dict(os.environ, VERIF_REPO=target, VERIF_EVIDENCE_DIR=f"/tmp/evalev_{sid}")
         else:
             rc, out = sh("git -C /repo status --porcelain")
             if out.strip():
@@ -77,7 +77,7 @@ def main():
                 sys.exit(2)
             rc, out = sh(f"git -C /repo apply {patch}")
             assert rc == 0, out
-            env = None
+            env = dict(os.environ, VERIF_EVIDENCE_DIR=f"/tmp/evalev_{sid}")
         try:
             for p in [prop] + extra:
                 t0 = time.time()
@@ -94,6 +94,7 @@ def main():
                 results[p] = {"exit": rc, "lines": [l[:300] for l in lines], "what": (replay_what or "")[:400],
                               "wall_s": round(time.time() - t0, 1)}
         finally:
+            shutil.rmtree(f"/tmp/evalev_{sid}", ignore_errors=True)
             if in_wt:
                 sh(f"git -C /repo worktree remove --force {target}")
             else:
